@@ -1430,7 +1430,10 @@ class S16(object):
         fired = len(self.fs.fired) > nfired
         e = self.errs(out)
         intact = (src == 'P' or self.qvalid.get(src)) and not fired and self.crashes == ncrash
-        if intact and not e and not self.trap:
+        # a Ctrl-Break that lands before the program has printed anything may have interrupted the
+        # load itself (reading a tape polls for events): then nothing is known about what is in memory
+        broke_early = (b'Break' in out or b'^C' in out) and b'START' not in out
+        if intact and not e and not self.trap and not broke_early:
             self.prot = True
         else:
             self.prot = None
